@@ -2,6 +2,7 @@ package storeb
 
 import (
 	"fmt"
+	"github.com/pokt-network/pocket-core/store/rootmulti"
 	"testing"
 
 	"github.com/pokt-network/pocket-core/store/iavl"
@@ -114,6 +115,48 @@ func TestC08(t *testing.T) {
 			if rerr != nil {
 				c.Violation("C08/rollback/returns-error", "RollbackVersion(%d) with latest %d: %v", target, latest, rerr)
 				return
+			}
+
+			// ---- the store object that performed the rollback, used on without a restart (half of the cases): its working
+			// substores and its versioned reads at the target height show the target's contents, the target version exists in
+			// every substore and no later one does
+			if rapid.Bool().Draw(rt, "useWithoutReopen") {
+				c.Label("used-without-reopen")
+				where0 := fmt.Sprintf("after RollbackVersion(%d) of latest %d, same store object (no reopen)", target, latest)
+				if p := try(func() { ck.multistore("in-process", where0, h, rb.kvOf, h.snaps[target]) }); p != nil {
+					c.Violation("C08/in-process/read-panics", "%s: reading the working substores panicked: %v", where0, p)
+				}
+				for st := range h.names {
+					is, ok := rb.ms.GetCommitStore(rb.keys[st]).(*iavl.Store)
+					if !ok {
+						continue
+					}
+					if !is.VersionExists(target) {
+						c.Violation("C08/in-process/target-version-missing-in-substore", "%s: substore %s VersionExists(%d)=false", where0, h.names[st], target)
+					}
+					for v := target + 1; v <= latest; v++ {
+						if is.VersionExists(v) {
+							c.Violation("C08/in-process/later-version-still-exists-in-substore", "%s: substore %s VersionExists(%d)=true", where0, h.names[st], v)
+						}
+					}
+				}
+				for v := int64(1); v <= target; v++ {
+					var view *rootmulti.Store
+					var verr error
+					if p := try(func() { view, verr = rb.lazyView(v) }); p != nil {
+						verr = fmt.Errorf("panic: %v", p)
+					}
+					if verr != nil || view == nil {
+						c.Violation("C08/in-process/retained-version-not-loadable", "%s: LoadLazyVersion(%d): %v", where0, v, verr)
+						continue
+					}
+					if p := try(func() {
+						ck.multistore("in-process-versioned", fmt.Sprintf("%s, lazy view %d", where0, v), h,
+							func(st int) stypes.KVStore { return view.GetKVStore(rb.keys[st]) }, h.snaps[v])
+					}); p != nil {
+						c.Violation("C08/in-process/read-panics", "%s: reading lazy view %d panicked: %v", where0, v, p)
+					}
+				}
 			}
 
 			// ---- reopen
